@@ -100,12 +100,25 @@ func c17Execute(sc *EvoScenario, libSeed int64) *c17Result {
 			return res
 		}
 		res.hashes = append(res.hashes, c17Hash(pop))
+		if sc.Ctor == ctorRandom {
+			// known finding K1: a gene-less child of mateSinglePoint that was not mutated afterwards joins the population
+			// silently and the next epoch would panic in rand.Intn(0); the run ends here (the same way in every repetition)
+			for _, org := range pop.Organisms {
+				if len(org.Genotype.Genes) == 0 {
+					res.errText = fmt.Sprintf("epoch %d: a gene-less organism joined the population (known finding K1)", gen)
+					return res
+				}
+			}
+		}
 	}
 	res.species = len(pop.Species)
 	for _, org := range pop.Organisms {
 		if snapGenome(org.Genotype).hasHidden() {
 			res.hidden = true
 		}
+	}
+	if len(res.hashes) == 0 {
+		return res
 	}
 	res.final = res.hashes[len(res.hashes)-1]
 	res.organism = genomeText(pop.Organisms[0].Genotype)
